@@ -270,7 +270,12 @@ def custom_game(draw):
     ndraws = draw(st.integers(1, 3))
     badugi = draw(st.booleans())
     hole = 4 if badugi else 5
-    streets = [[0, [0] * hole, 0, 0, 'POSITION', mb, cap]]
+    first = [0] * hole
+    if draw(st.integers(0, 2)) == 0:
+        # mixed facing in a draw game (some cards dealt face up)
+        first = draw(st.lists(st.sampled_from([0, 1]), min_size=hole,
+                              max_size=hole))
+    streets = [[0, first, 0, 0, 'POSITION', mb, cap]]
     for j in range(ndraws):
         amt = mb * (2 if j >= 1 and ndraws > 1 else 1)
         streets.append([int(burn), [], 0, 1, 'POSITION', amt, cap])
